@@ -185,6 +185,8 @@ def run_check(pid, tier, seed, replay=None):
                     "-test.count=1", "-rapid.checks=%d" % checks]
             if steps:
                 args.append("-rapid.steps=%d" % steps)
+            if env.get("VERIF_SHRINK"):
+                args.append("-rapid.shrinktime=" + env["VERIF_SHRINK"])
             if replay and replay.endswith(".fail"):
                 args.append("-rapid.failfile=" + os.path.abspath(replay))
             else:
@@ -217,12 +219,12 @@ def run_check(pid, tier, seed, replay=None):
                 base = os.path.join(rdir, "%s-seed%s-shard%d" % (tier, seed, k))
                 open(base + ".log", "w").write(log[-200000:])
                 own = glob.glob(os.path.join(sd, "replays", "*.json"))
-                if fails and not replay:
-                    shutil.copy(fails[0], base + ".fail")
-                    viols.append(base + ".fail")
-                elif own and not replay:
+                if own and not replay:
                     shutil.copy(own[0], base + ".json")
                     viols.append(base + ".json")
+                elif fails and not replay:
+                    shutil.copy(fails[0], base + ".fail")
+                    viols.append(base + ".fail")
                 else:
                     viols.append(replay if replay else base + ".log")
             else:
